@@ -25,7 +25,7 @@ CONFIRM_ALONE = ('join_slow', 'join_hung')
 FLOORS = {
     'quick': {'real:scenarios': 30, 'real:pending_at_close': 8, 'real:jobs_checked': 120,
               'real:post_close_refusals': 150, 'real:with_map': 10, 'real:with_imap': 10,
-              'real:recycling': 5},
+              'real:recycling': 5, 'real:failing_jobs': 6},
     'thorough': {'real:scenarios': 200, 'real:pending_at_close': 100, 'real:jobs_checked': 900},
 }
 
@@ -44,6 +44,12 @@ def gen(rng):
             job['n'] = rng.choice([1, 2, 5, 9, 12])
             job['dur'] = rng.choice([0.01, 0.05, 0.15])
             job['chunk'] = rng.choice([None, 1, 3]) if kind == 'map' else rng.choice([1, 1, 2])
+            if rng.random() < 0.3:
+                # one failing item: a map is resolved by it while its other
+                # chunks are still queued or running
+                job['fail_at'] = rng.choice([0, 0, rng.randrange(job['n'])])
+        elif rng.random() < 0.15:
+            job['raise'] = True
         jobs.append(job)
     p['jobs'] = jobs
     p['close_delay'] = rng.choice([0, 0.05, 0.3, 1.0, 3.0])
@@ -68,6 +74,17 @@ def directed(tier):
                 'close_delay': 0, 'jobs': [{'kind': 'apply', 'tag': 'long', 'dur': 7.0}] + [
                     {'kind': 'apply', 'tag': 'sc%d' % i, 'dur': 0.05, 'cb_sleep': 1.3}
                     for i in range(3)]})
+    # a map that failed on its first chunk: the results of its other chunks
+    # arrive for a job the pool no longer knows; their workers must still be
+    # able to leave at once when close() comes later
+    out.append({'nproc': 2, 'maxtasks': None, 'threads': True, 'T': 2.0, 'pool_hard': None,
+                'close_delay': 3.0, 'jobs': [
+                    {'kind': 'map', 'tag': 'fm', 'n': 8, 'chunk': 1, 'dur': 0.05, 'fail_at': 0},
+                    {'kind': 'apply', 'tag': 'a0', 'dur': 0.05}]})
+    out.append({'nproc': 3, 'maxtasks': None, 'threads': True, 'T': 2.0, 'pool_hard': None,
+                'close_delay': 3.0, 'jobs': [
+                    {'kind': 'map', 'tag': 'fm', 'n': 9, 'chunk': 3, 'dur': 0.05, 'fail_at': 4},
+                    {'kind': 'imap_u', 'tag': 'iu', 'n': 5, 'chunk': 1, 'dur': 0.05, 'fail_at': 1}]})
     if tier != 'quick':
         out.append({'nproc': 3, 'maxtasks': None, 'threads': True, 'T': 2.0, 'pool_hard': 60,
                     'close_delay': 0.1, 'jobs': [
@@ -103,11 +120,36 @@ def work_estimate(p):
 def expected(job):
     tag = job['tag']
     if job['kind'] == 'apply':
-        return ['ok', ['v', tag]]
+        return ['exc', 'TaskError'] if job.get('raise') else ['ok', ['v', tag]]
     vals = [['v', '%s.%d' % (tag, i)] for i in range(job['n'])]
+    fail = job.get('fail_at')
     if job['kind'] == 'map':
-        return ['ok', vals]
+        return ['ok', vals] if fail is None else ['exc', 'TaskError']
+    if fail is not None:
+        # (the reader stops at the first failing item)
+        return ['items', [['ok', v] for v in vals[:fail]] + [['exc', 'TaskError']]]
     return ['items', [['ok', v] for v in vals]]
+
+
+def same_result(job, got, want):
+    if want[0] == 'exc':
+        return got[:2] == want
+    if got[0] == 'items' and job.get('fail_at') is not None and got[1]:
+        # billiard's imap iterators raise Exception(<remote traceback>) for a
+        # failing item: any failure but a timeout of the reader counts
+        last = got[1][-1]
+        if last[0] == 'exc' and last[1] not in ('TimeoutError', 'StopIteration'):
+            got = ['items', got[1][:-1] + [['exc', 'TaskError']]]
+    if job['kind'] == 'imap_u' and got[0] == 'items':
+        if job.get('fail_at') is not None:
+            # any subset of the good items, in any order, then the failure
+            good = {repr(['ok', ['v', '%s.%d' % (job['tag'], i)]]) for i in range(job['n'])
+                    if i != job['fail_at']}
+            return bool(got[1]) and got[1][-1] == ['exc', 'TaskError'] and \
+                all(repr(x) in good for x in got[1][:-1]) and \
+                len({repr(x) for x in got[1][:-1]}) == len(got[1]) - 1
+        return sorted(map(repr, got[1])) == sorted(map(repr, want[1]))
+    return got == want
 
 
 def run_spec(spec, rec):
@@ -129,6 +171,17 @@ def run_spec(spec, rec):
     if pending:
         rec.count('real:pending_at_close')
     attrs['pending_at_close'] = bool(pending)
+    # a map resolved by a failing chunk while other chunks of it were still
+    # queued or running when close() was called
+    fmp = False
+    for j in p['jobs']:
+        if j['kind'] == 'map' and j.get('fail_at') is not None and t_close is not None:
+            done = sum(1 for e in ends if e['t'] <= t_close
+                       and str(e.get('tag', '')).startswith(j['tag'] + '.'))
+            fmp = fmp or done < j['n']
+    attrs['failed_map_pending_at_close'] = fmp
+    if fmp:
+        rec.count('real:failed_map_pending_at_close')
     if p['maxtasks']:
         rec.count('real:recycling')
     if r['status'] == 'hang':
@@ -143,11 +196,9 @@ def run_spec(spec, rec):
         rec.count('real:jobs_checked')
         rec.count('real:with_' + ('imap' if job['kind'].startswith('imap') else job['kind']))
         want = expected(job)
-        if job['kind'] == 'imap_u' and got[0] == 'items':
-            same = sorted(map(repr, got[1])) == sorted(map(repr, want[1]))
-        else:
-            same = got == want
-        if not same:
+        if job.get('fail_at') is not None or job.get('raise'):
+            rec.count('real:failing_jobs')
+        if not same_result(job, got, want):
             rec.violation('result_missing_or_wrong_after_join',
                           dict(attrs, job_kind=job['kind']), job=job, got=got, want=want,
                           params=p)
